@@ -214,22 +214,19 @@ ChicOpts == [check_motif : {TRUE}, allow_cycle_shift : {FALSE}, no_cigar : BOOLE
 Mk(proto, f, p, rv, k, c, c3, n, r2, o) ==
     [proto |-> proto, L |-> 24, ref |-> ModelRef(f[1], f[2]), p |-> p, rev |-> rv, kind |-> k.kind, mmpos |-> k.mmpos,
      mmbase |-> k.mmbase, xbase |-> k.xbase, clip |-> c, clip3 |-> c3, n |-> n, r2 |-> r2, opts |-> o, sample |-> "c1"]
-Scenarios ==
-    { s \in ( IF "nla" \in Protos THEN
-                { Mk("nla", f, 10, rv, k, c, c3, n, r2, o) : f \in Flanks, rv \in BOOLEAN, k \in NlaKinds, c \in 0 .. MaxClip,
-                  c3 \in Clip3s, n \in ReadLens, r2 \in {"none", "proper"}, o \in NlaOpts }
-              ELSE {} )
-            \cup
-            ( IF "chic" \in Protos THEN
-                { Mk("chic", f, p, rv, k, c, c3, n, r2, o) : f \in Flanks, p \in {11, 12}, rv \in BOOLEAN, k \in ChicKinds, c \in 0 .. MaxClip,
-                  c3 \in Clip3s, n \in ReadLens, r2 \in {"none", "proper", "same"}, o \in ChicOpts }
-              ELSE {} )
-      : WellFormed(s) }
+(* the bounded scenario space, enumerated by Init (one initial state per well-formed scenario) *)
+ChoosesNla(s) == "nla" \in Protos /\
+    \E f \in Flanks, rv \in BOOLEAN, k \in NlaKinds, c \in 0 .. MaxClip, c3 \in Clip3s, n \in ReadLens,
+       r2 \in {"none", "proper"}, o \in NlaOpts : s = Mk("nla", f, 10, rv, k, c, c3, n, r2, o)
+ChoosesChic(s) == "chic" \in Protos /\
+    \E f \in Flanks, p \in {11, 12}, rv \in BOOLEAN, k \in ChicKinds, c \in 0 .. MaxClip, c3 \in Clip3s, n \in ReadLens,
+       r2 \in {"none", "proper", "same"}, o \in ChicOpts : s = Mk("chic", f, p, rv, k, c, c3, n, r2, o)
 
 Scn(i) == IF i = 1 THEN scn ELSE MirrorScn(scn)
 Turn(i) == i = 1 \/ pc[1] = "done"
 
-Init == /\ scn \in Scenarios
+Init == /\ (ChoosesNla(scn) \/ ChoosesChic(scn))
+        /\ WellFormed(scn)
         /\ pc = <<"new", "new">>
         /\ frag = <<Blank(DeriveRead(scn)), Blank(DeriveRead(MirrorScn(scn)))>>
 
@@ -258,10 +255,10 @@ NlaAcceptShift(i) ==
     /\ NlaSetSite(i, NlaArm(frag[i].read, Scn(i).opts))
 (* rejection arm: set_rejection_reason(.., set_qcfail=True); set_site(.., valid=False) keeps an anchor but no DS *)
 NlaReject(i) ==
-    LET r == frag[i].read  o == Scn(i).opts IN
     /\ Turn(i) /\ pc[i] = "inited" /\ Scn(i).proto = "nla"
-    /\ NlaArm(r, o) = "reject"
-    /\ frag' = [frag EXCEPT ![i] = [@ EXCEPT !.found = FALSE, !.qcfail = TRUE, !.rr = NlaReason(r), !.has_rs = TRUE,
+    /\ NlaArm(frag[i].read, Scn(i).opts) = "reject"
+    /\ LET r == frag[i].read  o == Scn(i).opts IN
+       frag' = [frag EXCEPT ![i] = [@ EXCEPT !.found = FALSE, !.qcfail = TRUE, !.rr = NlaReason(r), !.has_rs = TRUE,
                                              !.rs = (r.rev # o.invert_strand), !.strand = r.rev, !.has_loc = TRUE,
                                              !.loc = NlaPos(r, o, "reject"), !.css = r.rev]]
     /\ pc' = [pc EXCEPT ![i] = "sited"]
@@ -274,19 +271,19 @@ ChicRejectOrientation(i) ==
     /\ pc' = [pc EXCEPT ![i] = "sited"]
     /\ UNCHANGED scn
 ChicSetSite(i) ==
-    LET r == frag[i].read  o == Scn(i).opts  pos == ChicPos(r, o, Scn(i).kind = "trimmed")
-        ss == r.rev # o.invert_strand IN
     /\ Turn(i) /\ pc[i] = "inited" /\ Scn(i).proto = "chic" /\ Scn(i).r2 # "same"
-    /\ frag' = [frag EXCEPT ![i] = [@ EXCEPT !.found = TRUE, !.has_ds = TRUE, !.ds = pos, !.has_rs = TRUE, !.rs = ss,
+    /\ LET r == frag[i].read  o == Scn(i).opts  pos == ChicPos(r, o, Scn(i).kind = "trimmed")
+           ss == r.rev # o.invert_strand IN
+       frag' = [frag EXCEPT ![i] = [@ EXCEPT !.found = TRUE, !.has_ds = TRUE, !.ds = pos, !.has_rs = TRUE, !.rs = ss,
                                              !.strand = ss, !.has_loc = TRUE, !.loc = pos, !.css = ss]]
     /\ pc' = [pc EXCEPT ![i] = "sited"]
     /\ UNCHANGED scn
 
 (* is_valid() and match_hash (nlaIII.py:51-76, chic.py:48-63 with assignment_radius = 0) *)
 ComputeHash(i) ==
-    LET f == frag[i]  v == ~f.qcfail /\ f.found IN
     /\ Turn(i) /\ pc[i] = "sited"
-    /\ frag' = [frag EXCEPT ![i].valid = v,
+    /\ LET f == frag[i]  v == ~f.qcfail /\ f.found IN
+       frag' = [frag EXCEPT ![i].valid = v,
                             ![i].hash = IF v THEN [valid |-> TRUE, strand |-> f.strand, css |-> f.css, chrom |-> "chr1",
                                                    pos |-> f.loc, sample |-> Scn(i).sample]
                                         ELSE NoHash]
